@@ -54,6 +54,7 @@ EXTENDS Naturals, Sequences, FiniteSets, TLC
 CONSTANTS MaxU8, MaxLabel, MaxName, MaxTxtChunk, MaxU16, PtrLimit,
           ReqOverhead, RespOverhead, MaxUDP,
           FrameMode, PtrMode, NonceMode,
+          UnpackMode,     \* "assign" | "merge" (see AnyPack)
           DecoderMode,    \* "pure": Reveal is a function of (encoding, key) - it may be applied to one buffer again and again, with
                           \*         any keys, in any order (the station tries every key it has on the same bytes);
                           \* "inplace": a Reveal consumes the buffer it was given (a broken instance: must violate RoundTrip)
@@ -239,10 +240,22 @@ UrlModes == {"own", "stripped", "legacy", "other type"}
 Pack(ty, m, url) == [url |-> CASE url = "own" -> ty [] url = "stripped" -> "" [] url = "legacy" -> "legacy " \o ty
                                   [] OTHER -> "not " \o ty, bytes |-> <<ty, m>>]
 Unpack(a, ty) == IF a.url \in {ty, "", "legacy " \o ty} THEN Ok(a.bytes[2]) ELSE Err
-AnyPack(ty, url) ==
+\* A parameters message is a set of OPTIONAL fields; the packed value sets all, some or none of them.  The destination the
+\* caller unpacks into is freshly allocated or still holds the parameters of an earlier registration (every field set).
+\* Unpacking ASSIGNS: fields the packed value leaves unset are unset afterwards, whatever the destination held.
+\* UnpackMode = "merge" (a broken instance) decodes into a scratch message and merges it into the destination: what the
+\* destination held shows through wherever the value is silent.
+MsgShapes == {"full", "partial", "empty"}
+DstStates == {"fresh", "used"}
+PFields == {"f1", "f2"}
+SetIn(m) == CASE m = "full" -> PFields [] m = "partial" -> {"f1"} [] OTHER -> {}
+Original(m) == [f \in PFields |-> IF f \in SetIn(m) THEN "new" ELSE "unset"]
+Unpacked(m, d) == [f \in PFields |-> IF f \in SetIn(m) THEN "new"
+                                     ELSE IF UnpackMode = "merge" /\ d = "used" THEN "old" ELSE "unset"]
+AnyPack(ty, url, m, d) ==
   LET a == Pack(ty, "m", url) r == Unpack(a, ty) IN
-  obs' = [a |-> "AnyPack", ty |-> ty, url |-> url, accept |-> ~r.err, representable |-> url # "other type",
-          rt |-> r.err \/ r.v = "m"]
+  obs' = [a |-> "AnyPack", ty |-> ty, url |-> url, mshape |-> m, dst |-> d, accept |-> ~r.err, representable |-> url # "other type",
+          rt |-> r.err \/ (r.v = "m" /\ Unpacked(m, d) = Original(m))]
 
 Total(r) == r.err \/ "v" \in DOMAIN r
 Arb(s) ==
@@ -268,7 +281,7 @@ Next == obs.a = "Init" /\
         \/ \E kind \in ObfKinds, n \in TagLens, sk \in Keys, other \in Keys, r1 \in Nonces, r2 \in Nonces :
               ObfTwice(kind, n, sk, other, r1, r2)
         \/ \E a \in ExReq, b \in ExResp, dom \in Domains : Exchange(a, b, dom)
-        \/ \E ty \in ParamTypes, url \in UrlModes : AnyPack(ty, url)
+        \/ \E ty \in ParamTypes, url \in UrlModes, m \in MsgShapes, d \in DstStates : AnyPack(ty, url, m, d)
         \/ \E s \in ArbStrings : Arb(s)
 Spec == Init /\ [][Next]_vars
 
